@@ -91,6 +91,23 @@ def _scale_down_exact(val, n_bits_dropped):
         # as rationals, so that the store rounds the exact value (a float factor 2**-k would round it to 53 bits first)
         return np.array(np.array(val, dtype=object) * Fraction(1, 1 << n_bits_dropped), dtype=object)
 
+def _rescale_raw(val, n_shift):
+        # integer codes moved by `n_shift` fraction bits, exactly: python integers when the shifted codes do not fit the 64-bit
+        # integer types (val * 2**n_shift wraps there, or raises for a python integer factor beyond them), exact rationals
+        # (rounded by the store) when bits are dropped from codes that a float does not hold
+        if n_shift == 0:
+            return val
+        v = np.asarray(val)
+        is_int = v.dtype.kind in 'iu' and v.size > 0
+        m = max(abs(int(np.max(v))), abs(int(np.min(v)))) if is_int else 0
+        if n_shift > 0:
+            if is_int and (n_shift >= 63 or (m << n_shift) >= 2**63):
+                v = v.astype(object)
+            return v * (1 << n_shift)
+        if v.dtype == object or (is_int and m >= 2**53):
+            return _scale_down_exact(v, -n_shift)
+        return v * 2**n_shift
+
 def _needs_python_int(x, y, n_frac):
         # the aligned sum/difference needs one bit more than the wider aligned operand; 64-bit integer types hold
         # 63 bits exactly, and a signed with an unsigned operand are combined by numpy in float64 (53 bits)
@@ -305,7 +322,7 @@ def fxp_max(x, axis=None, out=None, out_like=None, sizing='optimal', method='raw
     """
     def _max_raw(x, n_frac, **kwargs):
         precision_cast = (lambda m: np.array(m, dtype=object)) if n_frac >= _n_word_max else (lambda m: m)
-        return np.max(x.val, **kwargs) * precision_cast(2**(n_frac - x.n_frac))
+        return _rescale_raw(np.max(x.val, **kwargs), n_frac - x.n_frac)
 
     kwargs['axis'] = axis  
     return _function_over_one_var(repr_func=np.max, raw_func=_max_raw, x=x, out=out, out_like=out_like, sizing=sizing, method=method, **kwargs)
@@ -316,7 +333,7 @@ def fxp_min(x, axis=None, out=None, out_like=None, sizing='optimal', method='raw
     """
     def _min_raw(x, n_frac, **kwargs):
         precision_cast = (lambda m: np.array(m, dtype=object)) if n_frac >= _n_word_max else (lambda m: m)
-        return np.min(x.val, **kwargs) * precision_cast(2**(n_frac - x.n_frac))
+        return _rescale_raw(np.min(x.val, **kwargs), n_frac - x.n_frac)
     
     kwargs['axis'] = axis  
     return _function_over_one_var(repr_func=np.min, raw_func=_min_raw, x=x, out=out, out_like=out_like, sizing=sizing, method=method, **kwargs)
@@ -452,7 +469,12 @@ def truediv(x, y, out=None, out_like=None, sizing='optimal', method='raw', **kwa
 
     def _truediv_raw(x, y, n_frac):
         precision_cast = (lambda m: np.array(m, dtype=object)) if n_frac >= _n_word_max else (lambda m: m)
-        return (x.val * precision_cast(2**(n_frac - x.n_frac + y.n_frac))) // precision_cast(y.val)    # (python integers on both sides, when they are used)
+        n_shift = n_frac - x.n_frac + y.n_frac
+        if n_shift >= 0:
+            num = _rescale_raw(x.val, n_shift) if n_shift > 0 else x.val      # (the pre-scaled dividend must not wrap in 64 bits)
+            den = np.array(y.val, dtype=object) if np.asarray(num).dtype == object or not isinstance(num, np.ndarray) else y.val
+            return num // precision_cast(den)
+        return (x.val * precision_cast(2**n_shift)) // precision_cast(y.val)    # (python integers on both sides, when they are used)
         # return np.floor_divide(np.multiply(x.val, precision_cast(2**(n_frac - x.n_frac + y.n_frac))), y.val)
 
     def _truediv_raw_complex(x, y, n_frac):
@@ -575,7 +597,7 @@ def sum(x, axis=None, out=None, out_like=None, sizing='optimal', method='raw', *
     """
     def _sum_raw(x, n_frac, **kwargs):
         precision_cast = (lambda m: np.array(m, dtype=object)) if n_frac >= _n_word_max else (lambda m: m)
-        return np.sum(x.val, **kwargs) * precision_cast(2**(n_frac - x.n_frac))
+        return _rescale_raw(np.sum(x.val, **kwargs), n_frac - x.n_frac)
 
     if not isinstance(x, Fxp):
         x = Fxp(x)
@@ -595,7 +617,7 @@ def cumsum(x, axis=None, out=None, out_like=None, sizing='optimal', method='raw'
     """
     def _cumsum_raw(x, n_frac, **kwargs):
         precision_cast = (lambda m: np.array(m, dtype=object)) if n_frac >= _n_word_max else (lambda m: m)
-        return np.cumsum(x.val, **kwargs) * precision_cast(2**(n_frac - x.n_frac))
+        return _rescale_raw(np.cumsum(x.val, **kwargs), n_frac - x.n_frac)
 
     if not isinstance(x, Fxp):
         x = Fxp(x)
@@ -645,7 +667,7 @@ def sort(x, axis=-1, out=None, out_like=None, sizing='optimal', method='raw', **
     """
     def _sort_raw(x, n_frac, **kwargs):
         precision_cast = (lambda m: np.array(m, dtype=object)) if n_frac >= _n_word_max else (lambda m: m)
-        return np.sort(x.val, **kwargs) * precision_cast(2**(n_frac - x.n_frac))
+        return _rescale_raw(np.sort(x.val, **kwargs), n_frac - x.n_frac)
 
     kwargs['axis'] = axis
     return _function_over_one_var(repr_func=np.sort, raw_func=_sort_raw, x=x, out=out, out_like=out_like, sizing=sizing, method=method, **kwargs)
@@ -693,7 +715,7 @@ def transpose(x, axes=None, out=None, out_like=None, sizing='optimal', method='r
     """
     def _transpose_raw(x, n_frac, **kwargs):
         precision_cast = (lambda m: np.array(m, dtype=object)) if n_frac >= _n_word_max else (lambda m: m)
-        return np.transpose(x.val, axes=kwargs.get('axes', None)) * precision_cast(2**(n_frac - x.n_frac))
+        return _rescale_raw(np.transpose(x.val, axes=kwargs.get('axes', None)), n_frac - x.n_frac)
 
     kwargs['axes'] = axes
     return _function_over_one_var(repr_func=np.transpose, raw_func=_transpose_raw, x=x, out=out, out_like=out_like, sizing=sizing, method=method, **kwargs)
@@ -711,7 +733,7 @@ def clip(a, a_min=None, a_max=None, out=None, out_like=None, sizing='optimal', m
         val_min = val_min * 2**x.n_frac if val_min is not None else (-(1 << (x.n_word - 1)) if x.signed else 0)
         val_max = val_max * 2**x.n_frac if val_max is not None else ((1 << (x.n_word - int(x.signed))) - 1)
 
-        return utils.clip(x.val, val_min=val_min, val_max=val_max) * precision_cast(2**(n_frac - x.n_frac))
+        return _rescale_raw(utils.clip(x.val, val_min=val_min, val_max=val_max), n_frac - x.n_frac)
 
     # the bounds may also be given under NumPy's newer keyword names
     if 'min' in kwargs: a_min = kwargs.pop('min')
@@ -728,7 +750,7 @@ def diagonal(a, offset=0, axis1=0, axis2=1, out=None, out_like=None, sizing='opt
     """
     def _diagonal_raw(x, n_frac, **kwargs):
         precision_cast = (lambda m: np.array(m, dtype=object)) if n_frac >= _n_word_max else (lambda m: m)
-        return np.diagonal(x.val, **kwargs) * precision_cast(2**(n_frac - x.n_frac))
+        return _rescale_raw(np.diagonal(x.val, **kwargs), n_frac - x.n_frac)
 
     kwargs['offset'] = offset
     kwargs['axis1'] = axis1
@@ -741,7 +763,7 @@ def trace(a, offset=0, axis1=0, axis2=1, out=None, out_like=None, sizing='optima
     """
     def _trace_raw(x, n_frac, **kwargs):
         precision_cast = (lambda m: np.array(m, dtype=object)) if n_frac >= _n_word_max else (lambda m: m)
-        return np.trace(x.val, **kwargs) * precision_cast(2**(n_frac - x.n_frac))
+        return _rescale_raw(np.trace(x.val, **kwargs), n_frac - x.n_frac)
 
     if not isinstance(a, Fxp):
         a = Fxp(a)
